@@ -115,7 +115,7 @@ var wraps = map[string]string{
 	"sliceToArrayPtr:0":  "b := []byte(source())\n\tp := (*[3]byte)(b)\n\tsink(p[0])",
 	"field:0":            "s := mkS(source())\n\tsink(s.B)",
 	"fieldAddr:0":        "p := mkPS(source())\n\tsink(p.B)",
-	"index:0":            "a := mkArr(source())\n\tsink(a[ki()%2-0])",
+	"index:0":            "a := mkArr(source())\n\tsink(a[ki()-1])",
 	"index:1":            "a := mkArr(\"q\")\n\tsink(a[sourceInt()%2])",
 	"indexAddr:0":        "s := mkStrs(source())\n\tsink(s[ki()-1])",
 	"indexAddr:1":        "s := mkStrs(\"q\")\n\tsink(s[sourceInt()%2])",
@@ -146,7 +146,7 @@ var wraps = map[string]string{
 	"carry#2":            "x := source()\n\tfor i := 0; i < 3; i++ {\n\t\topaque++\n\t}\n\tsink(x)",
 	"carry#3":            "x := source()\n\tswitch ki() {\n\tcase 1:\n\t\topaque++\n\tcase 2:\n\t\topaque--\n\tdefault:\n\t\topaque += 2\n\t}\n\tif c() {\n\t\topaque++\n\t}\n\tsink(x)",
 	"carry#4":            "x := source()\n\ty := x + k()\n\tfor i := 0; i < 2; i++ {\n\t\tif c() {\n\t\t\topaque++\n\t\t\tcontinue\n\t\t}\n\t\topaque--\n\t}\n\tsink(y)",
-	"phi#2":              "x := source()\n\ty := k()\n\tif c() {\n\t\ty = k() + \"a\"\n\t} else {\n\t\ty = x\n\t}\n\tsink(y)",
+	"phi#2":              "x := source()\n\ty := k()\n\tif !c() {\n\t\ty = k() + \"a\"\n\t} else {\n\t\ty = x\n\t}\n\tsink(y)",
 	"phi#3":              "y := source()\n\tfor i := 0; i < 2; i++ {\n\t\ty = y + k()\n\t}\n\tsink(y)",
 	"range:0":            "m := mkMap(source())\n\tfor _, v := range m {\n\t\tsink(v)\n\t}",
 	"next:0":             "m := mkMap(source())\n\tfor _, v := range m {\n\t\tsink(v)\n\t}",
